@@ -138,6 +138,26 @@ type health struct {
 	salt uint64
 }
 
+// waitNoSync waits for d or until stop() holds, whichever comes first, by sleeping in short steps. No timer channel:
+// receiving from one orders the receiver after every goroutine whose timers fired on the same processor before (the
+// race detector follows the runtime's timer context), which hides races between library goroutines.
+func waitNoSync(d time.Duration, stop func() bool) bool {
+	end := time.Now().Add(d)
+	for {
+		left := time.Until(end)
+		if left <= 0 {
+			return true
+		}
+		if left > 5*time.Millisecond {
+			left = 5 * time.Millisecond
+		}
+		time.Sleep(left)
+		if stop() {
+			return false
+		}
+	}
+}
+
 func (h *health) Check(ctx context.Context) bool {
 	r := timeRand(h.salt)
 	switch h.mode {
@@ -148,12 +168,7 @@ func (h *health) Check(ctx context.Context) bool {
 		if r&1 == 0 {
 			time.Sleep(d) // ignores the deadline
 		} else {
-			t := time.NewTimer(d)
-			select {
-			case <-t.C:
-			case <-ctx.Done():
-				t.Stop()
-			}
+			waitNoSync(d, func() bool { return ctx.Err() != nil })
 		}
 		if h.mode == healthSlowFlaky {
 			return r>>20%3 != 0
@@ -180,12 +195,7 @@ func mkPromote(el leader.Election, variant int) func(context.Context, string) {
 			_ = el.Status()
 		case 2:
 			// the application's leader task: runs until the term ends (bounded)
-			t := time.NewTimer(40 * time.Millisecond)
-			select {
-			case <-ctx.Done():
-			case <-t.C:
-			}
-			t.Stop()
+			waitNoSync(40*time.Millisecond, func() bool { return ctx.Err() != nil })
 			_ = el.IsLeader()
 		case 3:
 			_ = el.LeaderID()
